@@ -179,8 +179,16 @@ Definition step_thread (c : cfg) (i : nat) (alt : N) (s : st) (p : pc) : option 
       | Ready => Some (goto (set_check s i true Started) i (SUnlock RNil))
       end
   | SUnlock r =>
-      Some (goto (set_lock s None) i (match r with RNil => SSpawnRoot | _ => Done KStart r end))
-  | SSpawnRoot => Some (goto (set_hasCtx s) i SChain)
+      match r with
+      | RNil => Some (goto (set_lock s None) i SSpawnRoot)
+      | _ => Some (goto (set_lock s None) i (Done KStart r))
+      end
+  | SSpawnRoot =>
+      match alt with
+      | 0 => Some (goto (set_hasCtx s) i SChain)
+      | 1 => Some (goto s i (TLock ByStart None))     (* NewContext failed (e.g. invalid advertise address): system.Context stays nil *)
+      | _ => None
+      end
   | SChain =>
       match alt with
       | 0 => Some (goto (set_clusterCtx s (cfg_cluster c)) i SGo)                       (* chain succeeded *)
@@ -198,8 +206,11 @@ Definition step_thread (c : cfg) (i : nat) (alt : N) (s : st) (p : pc) : option 
       | Started => Some (goto (set_check s i false Stopped) i (TUnlock w d RNil))
       end
   | TUnlock w d r =>
-      Some (goto (set_lock s None) i (match r with RNil => TReadCluster w d | _ => finish w r end))
-  | TReadCluster w d => Some (goto s i (if clusterCtx s then TLeaveReq w d else TReadCtx w d))
+      match r with
+      | RNil => Some (goto (set_lock s None) i (TReadCluster w d))
+      | _ => Some (goto (set_lock s None) i (finish w r))
+      end
+  | TReadCluster w d => if clusterCtx s then Some (goto s i (TLeaveReq w d)) else Some (goto s i (TReadCtx w d))
   | TLeaveReq w d => Some (goto (set_leaveReq s) i (TLeaveWait w d))
   | TLeaveWait w d => if leaveDone s then Some (goto s i (TReadCtx w d)) else None
   | TReadCtx w d => if hasCtx s then Some (goto s i (TKill w d)) else Some (goto (set_skipped s) i (TSchedStop w))
@@ -294,7 +305,8 @@ Definition env_wait (s : st) (p : pc) : Prop :=
   | _ => False
   end.
 
-(** strictly decreasing measure of a thread's remaining own steps *)
+(** strictly decreasing measure of a thread's remaining own steps; [SGo] also pays for the goroutine it
+    creates (rank (Spawned GWait) = 13), so that the sum over all threads decreases at every thread step *)
 Fixpoint rank (p : pc) : nat :=
   match p with
   | Done _ _ => 0
@@ -310,14 +322,26 @@ Fixpoint rank (p : pc) : nat :=
   | TCheck _ _ => 10
   | TLock _ _ => 11
   | GWait => 12
-  | SGo => 1
-  | SChain => 12
-  | SSpawnRoot => 13
-  | SUnlock _ => 14
-  | SCheck => 15
-  | SLock => 16
+  | SGo => 14
+  | SChain => 15
+  | SSpawnRoot => 16
+  | SUnlock _ => 17
+  | SCheck => 18
+  | SLock => 19
   | XCancel => 1
   | Spawned k => S (rank k)
+  end.
+Definition total_rank (s : st) : nat := fold_right Nat.add 0%nat (map rank (thr s)).
+
+(** number of thread steps that actually happen when the events are applied in order *)
+Fixpoint thread_steps (c : cfg) (evs : list ev) (s : st) : nat :=
+  match evs with
+  | [] => 0
+  | e :: r =>
+      match step c e s with
+      | Some s' => (match e with EStep _ _ => 1 | _ => 0 end + thread_steps c r s')%nat
+      | None => thread_steps c r s
+      end
   end.
 
 (** no thread can step, whatever the clock *)
@@ -345,7 +369,8 @@ Inductive call : Type :=
 | CCancel.
 
 Record scen : Type := {
-  sc_seq : bool;           (* calls are issued one after the other (call k+1 starts after call k returned) *)
+  sc_prefix : nat;         (* the first sc_prefix calls are issued one after the other (each after the previous one returned);
+                              the remaining calls are released together once those have returned *)
   sc_start_fails : bool;   (* the start-up chain of this system fails (e.g. remoting cannot bind) *)
   sc_blocks : bool;        (* the actor tree does not terminate within any of the timeouts used *)
 }.
@@ -388,8 +413,8 @@ Fixpoint matches (acc : list (option res)) (obs : list N) : bool :=
   | _, _ => false
   end.
 
-(** the indices of calls that may take their next point now: concurrent = every call with a pending point;
-    sequential = only the first call that has not returned *)
+(** the indices of calls that may take their next point now: while a call of the sequential prefix has not
+    returned, only that call; afterwards every call with a pending point *)
 Fixpoint first_pending (pend : list (list point)) (k : nat) : option nat :=
   match pend with
   | [] => None
@@ -416,7 +441,10 @@ Fixpoint search (fuel : nat) (sc : scen) (pend : list (list point)) (a : astate)
        search fuel' sc pend
          {| a_status := next_status (a_status a) false; a_cancel := true; a_guard := true; a_guard_ran := true |} acc obs)
     ||
-    exists_in (if sc_seq sc then match first_pending pend 0 with Some k => [k] | None => [] end else all_pending pend 0)
+    exists_in (match first_pending pend 0 with
+               | Some k => if Nat.ltb k (sc_prefix sc) then [k] else all_pending pend 0
+               | None => []
+               end)
       (fun k =>
          match nth_error pend k with
          | Some (pt :: rest) =>
